@@ -408,11 +408,11 @@ def _history_case(draw):
 
 SUBS = [
     Sub("threshold_pmf_sampling", check_threshold, strategy=_to_case, quick=120, thorough=4000, shards=16, shrink_quick=False,
-        floors={"nt": 0.06, "unseen_scores": 0.1}),
+        floors={"nt": 0.03, "unseen_scores": 0.1}),
     Sub("eg_pmf_sampling", check_eg, strategy=_eg_case, quick=60, thorough=1500, shards=16, shrink_quick=False,
-        floors={"nt": 0.1, "mixture>=2": 0.15}),
+        floors={"nt": 0.05, "mixture>=2": 0.1}),
     Sub("eg_regression_sampling", check_eg_regression, strategy=lambda: _eg_case(regression=True), quick=50, thorough=1200,
-        shards=16, shrink_quick=False, floors={"nt": 0.1}),
+        shards=16, shrink_quick=False, floors={"nt": 0.08}),
     Sub("prediction_histories", check_history, strategy=_history_case, quick=80, thorough=2000, shards=16, shrink_quick=False,
-        floors={"nt": 0.05, "pickle": 0.3}),
+        floors={"nt": 0.02, "pickle": 0.234}),
 ]
